@@ -1147,15 +1147,22 @@ func (c *ChannelWriter) mapDBAndCollectionName(db, collection string) (string, s
 		db = util.DefaultDbName
 	}
 	returnDB, returnCollection := db, collection
+	wholeDB := false
 	c.nameMappings.Range(func(source, target string) bool {
 		sourceDB, sourceCollection := util.GetCollectionNameFromFull(source)
-		if sourceDB == db && sourceCollection == collection {
+		if sourceDB != db {
+			return true
+		}
+		// a collection-level entry wins over a whole-database entry, whatever the iteration order
+		if sourceCollection == collection {
 			returnDB, returnCollection = util.GetCollectionNameFromFull(target)
 			return false
 		}
-		if sourceDB == db && (sourceCollection == "*" || collection == "") {
+		if sourceCollection == "*" {
 			returnDB, _ = util.GetCollectionNameFromFull(target)
-			return false
+			wholeDB = true
+		} else if collection == "" && !wholeDB {
+			returnDB, _ = util.GetCollectionNameFromFull(target)
 		}
 		return true
 	})
